@@ -13,6 +13,9 @@
 //!   c13.random       random schedules, more threads / loads, page look-ups, object streams
 //!   c13.os           threads scheduled by the OS (a token is handed over at every yield point): the recorded
 //!                    schedule is replayed on the model
+//!   c13.lazy.*       once-initialised fields of shared typed objects (c13_lazy.rs)
+//!   c13.callbacks*   the callbacks into user code (`Log::log_get`, `Log::load_object`, the `Cache` trait) as scheduling
+//!                    points, with a time limit per step; c13.blocking-log: user code that really blocks (c13_cb.rs)
 //! Oracles (real code against the property's own oracle = the sequential uncached run of each thread's calls):
 //!   c13.witness      deterministic schedules: D29 (two loads overlap on a shared resolver: regression),
 //!                    D30 (mutually referring objects loaded in opposite order: open)
@@ -23,6 +26,8 @@
 
 #[path = "c13_lazy.rs"]
 mod lazy;
+#[path = "c13_cb.rs"]
+mod cb;
 
 use crate::c12::doc::*;
 use crate::c12::{calls_text, cfg_text, do_call, run_config, Call, Mode, T_CAT, T_DICT, T_I32, T_OBJSTM, T_PAGES, T_PRIM, T_STREAM};
@@ -35,7 +40,7 @@ use pdf::file::verif_hook::{self, Point};
 use pdf::file::{Cache, File, FileOptions, NoCache, NoLog, ObjectCache, StreamCache, SyncCache};
 use pdf::object::{ParseOptions, PlainRef, Resolve};
 use serde_json::{json, Value};
-use std::cell::RefCell;
+use std::cell::{Cell, RefCell};
 use std::collections::HashMap;
 use std::panic::{catch_unwind, resume_unwind, AssertUnwindSafe};
 use std::sync::{Arc, Condvar, Mutex};
@@ -52,6 +57,10 @@ pub enum Pos {
     Waiting(u64),
     Storing(u64),
     Popping(u64),
+    /// inside `Log::log_get(r)` (user code)
+    LogGet(u64),
+    /// inside `Log::load_object(r)` (user code)
+    LoadObj(u64),
     /// entry of `Lazy::load` on cell c
     LEnter(u64),
     /// the initialiser of cell c returned; the once-cell stores next
@@ -72,6 +81,8 @@ impl Pos {
             Pos::Waiting(r) => format!("w{}", r),
             Pos::Storing(r) => format!("s{}", r),
             Pos::Popping(r) => format!("o{}", r),
+            Pos::LogGet(r) => format!("lg{}", r),
+            Pos::LoadObj(r) => format!("lo{}", r),
             Pos::LEnter(c) => format!("le{}", c),
             Pos::LStore(c) => format!("ls{}", c),
             Pos::Blocked => "b".into(),
@@ -252,12 +263,38 @@ fn yield_log(pos: Pos, log: bool) {
     }
 }
 
+thread_local! {
+    /// 0: the `Log` callbacks are no scheduling points | 1: `log_get` and the first `load_object(key)` of a compute / reload
+    /// run of `get(key)` are (what the model has) | 2: every `load_object` is
+    pub(crate) static CB_MODE: Cell<u8> = Cell::new(0);
+    /// the key whose next `load_object` is the first of a compute / reload run
+    static EXPECT_LOAD: Cell<u64> = Cell::new(u64::MAX);
+}
+
+/// the user's `Log` of the scheduled runs: its methods are yield points
+pub struct ParkLog;
+impl pdf::file::Log for ParkLog {
+    fn log_get(&self, r: PlainRef) {
+        if CB_MODE.with(|m| m.get()) != 0 { yield_here(Pos::LogGet(r.id)); }
+    }
+    fn load_object(&self, r: PlainRef) {
+        match CB_MODE.with(|m| m.get()) {
+            0 => {}
+            1 => if EXPECT_LOAD.with(|e| e.get()) == r.id {
+                EXPECT_LOAD.with(|e| e.set(u64::MAX));
+                yield_here(Pos::LoadObj(r.id));
+            },
+            _ => yield_here(Pos::LoadObj(r.id)),
+        }
+    }
+}
+
 fn hook(point: Point, key: PlainRef) {
     match point {
         Point::Enter => yield_here(Pos::Enter(key.id)),
-        Point::AfterPush => yield_here(Pos::Pushed(key.id)),
+        Point::AfterPush => { EXPECT_LOAD.with(|e| e.set(key.id)); yield_here(Pos::Pushed(key.id)) }
         Point::AfterCache => {}
-        Point::BeforePop => yield_here(Pos::Popping(key.id)),
+        Point::BeforePop => { EXPECT_LOAD.with(|e| e.set(u64::MAX)); yield_here(Pos::Popping(key.id)) }
         Point::LazyEnter | Point::LazyInit | Point::LazyStore | Point::LazyExit => {
             let me = ME.with(|m| m.borrow().clone());
             if let Some((i, s)) = me {
@@ -998,6 +1035,9 @@ fn child_work(driver: &Driver, seed: u64, thorough: bool, progress_path: &str, o
                 for _ in 0..30 { rep.streams.push(stream_random(driver, "c13.os", SchedMode::Token, seed, case, case + 1, &mut or, &progress)); }
             }
             "c13.stress" => rep.oracles.push(oracle_stress(seed, case, case + 1, 50, &progress)),
+            "c13.callbacks" => rep.streams.push(cb::stream_callbacks(driver, false, &mut or, &progress)),
+            "c13.callbacks.random" => rep.streams.push(cb::stream_callbacks_random(driver, seed, case, case + 1, &mut or, &progress)),
+            "c13.blocking-log" => rep.oracles.push(cb::oracle_blocking_log(&progress)),
             "c13.lazy.random" => rep.streams.push(lazy::stream_lazy_random(driver, seed, case, case + 1, &mut or, &progress)),
             "c13.lazy.stress" => rep.oracles.push(lazy::oracle_lazy_stress(seed, case, case + 1, 50, &progress)),
             "c13.lazy.witness" => rep.streams.push(lazy::stream_lazy_witness(driver, true, &mut or, &progress)),
@@ -1018,6 +1058,11 @@ fn child_work(driver: &Driver, seed: u64, thorough: bool, progress_path: &str, o
     rep.oracles.push(lazy::oracle_lazy_stress(seed, 0, if thorough { 20_000 } else { 400 }, 1, &progress));
     rep.oracles.push(lazy::oracle_registries());
     rep.extra.insert("seconds_lazy".into(), json!(t0.elapsed().as_secs_f64()));
+    let mut cor = Oracle::new("c13.callbacks");
+    rep.streams.push(cb::stream_callbacks(driver, thorough, &mut cor, &progress));
+    rep.streams.push(cb::stream_callbacks_random(driver, seed, 0, if thorough { 10_000 } else { 250 }, &mut cor, &progress));
+    rep.oracles.push(cor);
+    rep.oracles.push(cb::oracle_blocking_log(&progress));
     let mut or = Oracle::new("c13.sequential");
     let t0 = Instant::now();
     rep.streams.push(stream_exhaustive(driver, seed, 0, if thorough { 40 } else { 5 }, if thorough { 20_000 } else { 1200 }, if thorough { u64::MAX } else { 10 }, &mut or, &progress));
